@@ -427,6 +427,7 @@ fn c11_gen_dag() -> GenCfg {
     g.self_refs = false;
     g.generics = true;
     g.kinds = [5, 1, 0, 2, 4, 4, 2];
+    g.odd_item_names = true;
     g
 }
 fn c11_gen_cyclic() -> GenCfg {
